@@ -155,6 +155,64 @@ def orderMon (gs : List GorObs) : List GorObs := gs.filter fun g => !decide (P_o
 
 def OrderOK (gs : List GorObs) : Prop := ∀ g ∈ gs, P_order g
 
+
+/-! ## handler runs (C02: one run per message; C05: a graceful Close cancels no running handler) and
+probes started after termination (C01) -/
+
+/-- One user handler, identified by the token of the message it handles. -/
+structure HandObs where
+  side : String := ""
+  kind : String := ""
+  runs : Nat := 1            -- how often the handler of this ONE message ran
+  cancelled : Bool := false  -- its context was cancelled when it returned
+  cause : String := ""       -- class of context.Cause
+  bothOpen : Bool := false   -- at its return: neither transport had been closed or had failed
+deriving DecidableEq, Repr, Inhabited
+
+/-- A call started after both Waits had returned. -/
+structure ProbeObs where
+  name : String := ""
+  finished : Bool := false
+  closed : Bool := false     -- errors.Is(err, ErrConnectionClosed)
+  cls : String := ""
+deriving DecidableEq, Repr, Inhabited
+
+structure ExtraObs where
+  faultEver : Bool := false  -- a transport fault was injected at some time in the case
+  hands : List HandObs := []
+  probes : List ProbeObs := []
+deriving DecidableEq, Repr, Inhabited
+
+/-- C02: the handler of one message runs once. -/
+def P_runsOnce (h : HandObs) : Prop := h.runs ≤ 1
+/-- C05: without an injected fault, while both transports are open a handler's context is cancelled only by
+its caller (cause context.Canceled): a graceful Close lets running handlers finish. -/
+def P_graceful (fe : Bool) (h : HandObs) : Prop :=
+  fe = false → h.cancelled = true → h.bothOpen = true → h.cause = "context-canceled"
+/-- C01: a call started after termination fails at once with the closed-connection error. -/
+def P_probe (p : ProbeObs) : Prop := p.finished = true ∧ p.closed = true
+
+def ExtraOK (o : ExtraObs) : Prop :=
+  (∀ h ∈ o.hands, P_runsOnce h ∧ P_graceful o.faultEver h) ∧ ∀ p ∈ o.probes, P_probe p
+
+instance (h : HandObs) : Decidable (P_runsOnce h) := by unfold P_runsOnce; infer_instance
+instance (fe : Bool) (h : HandObs) : Decidable (P_graceful fe h) := by unfold P_graceful; infer_instance
+instance (p : ProbeObs) : Decidable (P_probe p) := by unfold P_probe; infer_instance
+
+inductive EClause where
+  | ranTwice (h : HandObs) | ungraceful (h : HandObs) | probe (p : ProbeObs)
+deriving DecidableEq, Repr, Inhabited
+
+def extraMon (o : ExtraObs) : List EClause :=
+  (o.hands.filter fun h => !decide (P_runsOnce h)).map .ranTwice ++
+  (o.hands.filter fun h => !decide (P_graceful o.faultEver h)).map .ungraceful ++
+  (o.probes.filter fun p => !decide (P_probe p)).map .probe
+
+def EClause.holdsOf (o : ExtraObs) : EClause → Prop
+  | .ranTwice h => h ∈ o.hands ∧ ¬ P_runsOnce h
+  | .ungraceful h => h ∈ o.hands ∧ ¬ P_graceful o.faultEver h
+  | .probe p => p ∈ o.probes ∧ ¬ P_probe p
+
 /-! ## string layer (trusted) -/
 open Proto
 
@@ -254,5 +312,27 @@ def parseGor (s : String) : Option GorObs :=
   | _ => none
 
 def parseGors (s : String) : Option (List GorObs) := ((s.splitOn " ").filter fun t => t ≠ "" && t ≠ "-").mapM parseGor
+
+def EClause.text : EClause → String
+  | .ranTwice h => s!"C02: the handler of one message ({h.side} {h.kind}) ran {h.runs} times"
+  | .ungraceful h => s!"C05: the context of a running {h.side} handler ({h.kind}) was cancelled with cause {h.cause} while both transports were open and no fault was injected: a graceful Close must let running handlers finish"
+  | .probe p =>
+    if p.finished then s!"C01: {p.name} started after Wait had returned ended with {p.cls}, not with ErrConnectionClosed"
+    else s!"C01: {p.name} started after Wait had returned is blocked instead of failing at once"
+
+/-- `fe=<0|1>`, `h:<sideHex>:<kindHex>:<runs>:<cancelled>:<causeHex>:<bothOpen>`, `p:<nameHex>:<finished>:<closed>:<classHex>`. -/
+def parseExtra (s : String) : Option ExtraObs :=
+  ((s.splitOn " ").filter fun t => t ≠ "" && t ≠ "-").foldlM (init := ({} : ExtraObs)) fun o t =>
+    match t.splitOn ":" with
+    | ["h", sd, k, r, c, cs, bo] => do
+      let h : HandObs := { side := ← hexToString sd, kind := ← hexToString k, runs := ← r.toNat?, cancelled := c == "1",
+                           cause := ← hexToString cs, bothOpen := bo == "1" }
+      pure { o with hands := o.hands ++ [h] }
+    | ["p", n, f, c, cl] => do
+      let p : ProbeObs := { name := ← hexToString n, finished := f == "1", closed := c == "1", cls := ← hexToString cl }
+      pure { o with probes := o.probes ++ [p] }
+    | _ => match t.splitOn "=" with
+      | ["fe", v] => some { o with faultEver := v == "1" }
+      | _ => none
 
 end SessMon
